@@ -19,7 +19,8 @@ RULE = ('case = (configuration with journal files, step list <=250 from the elec
         'non-trivial = a voter was killed after sending response_vote in a term that had no leader yet, and was restarted; distinct = distinct case digests')
 ASSUMPTIONS = ['a killed process loses its memory but keeps journal, .meta and dump files', 'kills happen between simulator steps']
 
-EXTRA = [('kill', 3), ('killvoter', 5), ('restart', 8)]
+EXTRA = [('kill', 3), ('killvoter', 5), ('restart', 8)]       # table version 1 (saved replays)
+EXTRA2 = EXTRA + [('staleterm', 3)]
 
 
 def strategy(tier):
@@ -33,12 +34,14 @@ def run_case(case):
     wd = simprop.new_workdir('c07')
     sim = cluster.Sim(cfg, wd)
     try:
-        resolved = simprop.run_steps(sim, case, EXTRA)
+        resolved = simprop.run_steps(sim, case, EXTRA, EXTRA2)
         classes = simprop.base_classes(sim)
         if sim.counters.get('restarts'):
             classes.add('restart')
         if sim.killed_after_vote:
             classes.add('killed-after-vote')
+        if sim.counters.get('staleterm_completed'):
+            classes.add('restarted-node-hears-older-term')
         nontrivial = sim.killed_after_vote >= 1 and sim.counters.get('restarts', 0) >= 1
         res = simprop.result_for(PROP, sim, resolved, nontrivial, classes)
         # two leaders in one term across a restart is this property's statement too
